@@ -260,8 +260,15 @@ impl Prop for ModelProg {
                 cmds.push(gen::Cmd::Tron);
             }
             cmds.push(if rng.coin() { gen::Cmd::Run(None) } else { gen::Cmd::Run(Some(*rng.pick(&labels))) });
+            // CONT behind a STOP / END (the model ends the session where CONT is not specified)
+            for _ in 0..rng.range(0, 2) {
+                cmds.push(gen::Cmd::Cont);
+            }
             if rng.coin() {
                 cmds.push(gen::Cmd::Goto(*rng.pick(&labels)));
+                if rng.coin() {
+                    cmds.push(gen::Cmd::Cont);
+                }
             }
             if rng.chance(1, 3) {
                 cmds.push(gen::Cmd::Troff);
